@@ -487,7 +487,21 @@ class SymExec:
         return result
 
     def e_Subscript(self, e):
-        return ('sub', self.expr(e.value), self.expr(e.slice))
+        base, key = self.expr(e.value), self.expr(e.slice)
+        # a literal container indexed by a constant is the element
+        if is_const(key):
+            if base[0] in ('tuple', 'list') and isinstance(key[1], int) and not isinstance(key[1], bool) and -len(base[1]) <= key[1] < len(base[1]):
+                return base[1][key[1]]
+            if base[0] == 'dict':
+                hits = [v for k, v in base[1] if k == key]
+                if len(hits) == 1:
+                    return hits[0]
+            if is_const(base) and isinstance(base[1], (tuple, list, str, bytes, dict)):
+                try:
+                    return C(base[1][key[1]])
+                except (KeyError, IndexError, TypeError):
+                    pass
+        return ('sub', base, key)
 
     def e_Slice(self, e):
         return ('slice', self.expr(e.lower) if e.lower else NONE, self.expr(e.upper) if e.upper else NONE, self.expr(e.step) if e.step else NONE)
